@@ -19,6 +19,9 @@ from lib.proggen import ProgGen
 from lib.props.c01 import adversarial, mutate, vm_stream
 
 STRUCT = [
+    # loops whose condition starts with a literal / keyword / parenthesis, with `continue` as the first or only statement of the body
+    "func h(n) { while true { if n { return 1 }; continue } }; h(1)", "func h(n) { i = 0; while 3 > i { i = i + 1; continue }; i }; h(0)",
+    "func h() { j = 0; while (j < 2) { j = j + 1; if j { continue } }; j }; h()", "k = 0; while 1 { k = k + 1; if k > 3 { break }; continue }; k",
     "i = 0; while i < 3 { i = i + 1; `{% if i > 1 { break } %}` }; i", "i = 0; while i < 3 { i = i + 1; `a{% continue %}b` }; i",
     # break / continue inside a stored body (function / computed value) defined in a loop — also AFTER a nested definition inside that body
     # has ended: the loop around the definition is not the body's loop (rejected, or compiled to a jump inside the body's own code)
